@@ -93,10 +93,38 @@ def check_raise_classes(model: Model, report: Report, rule: str) -> None:
                 report.ok(rule, fi.qualname, f"raise {text} (a local bound to a JSONPathError)")
             elif text == "StopIteration" and fi.name == "__next__":
                 report.ok(rule, fi.qualname, "raise StopIteration in an iterator's __next__", nontrivial=False)
+            elif _caught_locally(fi, node, text):
+                report.ok(rule, fi.qualname, f"raise {text} inside a try block of the same function whose handler catches it (what the handler raises is judged on its own)", nontrivial=False)
             else:
                 report.fail(rule, fi.qualname, f"raise:{text}", f"raises {text}, which is not a JSONPathError subclass", file=fi.file, line=node.lineno)
     if n < 30:
         raise AnalysisError(f"only {n} raise/assert statements found")
+
+
+def _caught_locally(fi: Any, node: ast.Raise, text: str) -> bool:
+    """The raise sits in the body (not a handler, else or finally part) of a `try` statement of the same function one of
+    whose handlers names the raised builtin class or one of its bases: it cannot leave the function as it is."""
+    from ..absval import BUILTIN_EXC_BASES
+
+    chain = []
+    cur: Any = text
+    while cur in BUILTIN_EXC_BASES and cur is not None:
+        chain.append(cur)
+        cur = BUILTIN_EXC_BASES[cur]
+    if not chain:
+        return False
+    for t in walk_own(fi.node):
+        if not isinstance(t, ast.Try):
+            continue
+        if not any(n is node for st in t.body for n in ast.walk(st)):
+            continue
+        for h in t.handlers:
+            if h.type is None:
+                return True
+            names = [ast.unparse(x) for x in (h.type.elts if isinstance(h.type, ast.Tuple) else [h.type])]
+            if any(nm in chain for nm in names):
+                return True
+    return False
 
 
 class _Null(Report):
